@@ -10,11 +10,16 @@
    from the property text) demands; (3) what the specification means for each validator.
    Round 1 had four refuted regions here (NaN under Min/Max, fractional / infinite floats under
    IsEnum(IntEnum), ints beyond the float range under DateTimeUnixTimestamp); they were repaired in /repo
-   (bfea338, 7092399, c700fb9) and the _partial / _refuted theorems are now the full statements below.      *)
+   (bfea338, 7092399, c700fb9) and are theorems now.  ONE refuted region is left (open finding C14-K9): the
+   message of a rejection is an f-string over the value (and the bound) that is evaluated before the exception is
+   raised, and printing an int of more than 4300 digits raises ValueError.  The model contains this (`reject`,
+   `fmt_ok`); C14_reject_message_refuted exhibits it, and the theorems that speak about rejections are stated
+   as _partial under the exact guard "value and bounds print" (fmt_ok, which is "str() succeeds":
+   C14_printable_iff_str).                                                                                  *)
 From Coq Require Import List ZArith Bool SpecFloat.
 From PV Require Import Base.Exn Model.ValidatorsBase Model.ValidatorsRegex Gen.Validators Model.Validators
                        Spec.ValidatorsSpec Proofs.ValidatorsRegexProofs Proofs.ValidatorsPrims Proofs.ValidatorsGood
-                       Proofs.ValidatorsRefine.
+                       Proofs.ValidatorsRefine Proofs.ValidatorsWitness.
 Import ListNotations.
 Open Scope Z_scope.
 
@@ -29,22 +34,49 @@ Proof. vm_compute. reflexivity. Qed.
 Print Assumptions C14_shapes_good.
 
 (* ---------- (2) the model meets the specification ------------------------------------------------------- *)
-(* For all validator trees (any nesting), all values of the input domain (spec <> SOut: e.g. numbers for
-   Min / Max, strings for Email), all oracle behaviours within the raise-sets.                             *)
-Theorem C14_validate_meets_spec : forall O, oracles_ok O -> forall w v,
+(* "v prints" is exactly "str(v) succeeds": no int of more than 4300 digits occurs in it *)
+Theorem C14_printable_iff_str : forall O v, fmt_ok v = true <-> exists s, py_str O v = Ok s.
+Proof.
+  intros O v. unfold py_str. destruct (fmt_ok v); cbn [negb]; split; try discriminate; try reflexivity.
+  - intros _. destruct v as [ | [] | | | | | | | | | ]; eauto.
+  - intros [s H]. discriminate.
+Qed.
+Print Assumptions C14_printable_iff_str.
+
+(* Full statement (FALSE, see C14_reject_message_refuted):
+     forall O w v, oracles_ok O -> spec O w v <> SOut -> validate O w v = outcome_of (spec O w v).
+   Proved under the guard that the value and the bounds of the validator tree print (w_fmt_ok, fmt_ok: no int of
+   more than 4300 digits).  For all validator trees (any nesting), all such values of the input domain
+   (spec <> SOut: e.g. numbers for Min / Max, strings for Email), all oracle behaviours within the raise-sets.
+   For IsUuid / DatetimeIsoFormat / DateTimeUnixTimestamp the parsing itself is the same stdlib oracle in model and
+   specification: what is proved for them is the exception class of every rejection and the convert flag. *)
+Theorem C14_validate_meets_spec_partial : forall O, oracles_ok O -> forall w v,
+  w_fmt_ok w = true -> fmt_ok v = true ->
   spec O w v <> SOut -> validate O w v = outcome_of (spec O w v).
-Proof. intros O HO. exact (validate_refines_spec gen_shapes O C14_shapes_good HO). Qed.
-Print Assumptions C14_validate_meets_spec.
+Proof.
+  intros O HO w v W F Hs. exact (proj1 (validate_refines_spec gen_shapes O C14_shapes_good HO w W v F Hs)).
+Qed.
+Print Assumptions C14_validate_meets_spec_partial.
 
 (* every rejection is a ValidatorException, whatever the stdlib oracles raise within their raise-sets *)
-Theorem C14_rejections_are_ValidatorExc : forall O, oracles_ok O -> forall w v,
-  spec O w v <> SOut ->
+Theorem C14_rejections_are_ValidatorExc_partial : forall O, oracles_ok O -> forall w v,
+  w_fmt_ok w = true -> fmt_ok v = true -> spec O w v <> SOut ->
   (exists r, validate O w v = Ok r) \/ validate O w v = Raise VEC.
 Proof.
-  intros O HO w v Hs. rewrite (C14_validate_meets_spec O HO w v Hs).
+  intros O HO w v W F Hs. rewrite (C14_validate_meets_spec_partial O HO w v W F Hs).
   destruct (spec O w v); simpl; eauto.
 Qed.
-Print Assumptions C14_rejections_are_ValidatorExc.
+Print Assumptions C14_rejections_are_ValidatorExc_partial.
+
+(* finding C14-K9: a rejection whose message has to print an int of more than 4300 digits leaves as ValueError.
+   The values are in the input domain and do not satisfy the predicate (-10^5000 < 5; 10^5000 s is no date). *)
+Theorem C14_reject_message_refuted : exists w1 v1 v2, forall O,
+  spec O w1 v1 = SReject /\ validate O w1 v1 = Raise ValueErrorC /\
+  spec O WUnix v2 = SReject /\ validate O WUnix v2 = Raise ValueErrorC.
+Proof.
+  exists (WMin (VInt 5) true), (VInt (- 10 ^ 5000)), (VInt (10 ^ 5000)). exact reject_message_witness.
+Qed.
+Print Assumptions C14_reject_message_refuted.
 
 Theorem C14_validate_param_same : forall O w v, validate_param O w v = validate O w v.
 Proof. intros O w v. exact (validate_param_same gen_shapes O C14_shapes_good w v). Qed.
@@ -52,47 +84,57 @@ Print Assumptions C14_validate_param_same.
 
 (* ---------- (3) Min / Max: all bounds, all numbers (ints, bools, every float incl. +-0.0, +-inf and NaN) -- *)
 (* sat_min b incl v is `v >= b` (resp. `v > b`) on the extended rationals (Spec/ValidatorsSpec.v); NaN is no
-   rational and satisfies no bound *)
-Theorem C14_min_exact : forall O b incl v,
-  is_number v = true -> is_number b = true ->
+   rational and satisfies no bound.  Full statement (FALSE for ints beyond the digit limit, K9): without the two
+   fmt_ok hypotheses. *)
+Theorem C14_min_exact_partial : forall O b incl v,
+  is_number v = true -> is_number b = true -> fmt_ok v = true -> fmt_ok b = true ->
   validate O (WMin b incl) v = if sat_min b incl v then Ok v else Raise VEC.
 Proof. intros O. exact (min_exact gen_shapes O C14_shapes_good). Qed.
-Print Assumptions C14_min_exact.
+Print Assumptions C14_min_exact_partial.
 
-Theorem C14_max_exact : forall O b incl v,
-  is_number v = true -> is_number b = true ->
+Theorem C14_max_exact_partial : forall O b incl v,
+  is_number v = true -> is_number b = true -> fmt_ok v = true -> fmt_ok b = true ->
   validate O (WMax b incl) v = if sat_max b incl v then Ok v else Raise VEC.
 Proof. intros O. exact (max_exact gen_shapes O C14_shapes_good). Qed.
-Print Assumptions C14_max_exact.
+Print Assumptions C14_max_exact_partial.
+
+(* without any guard: the ACCEPT set is exact for all numbers, and a rejection is a ValidatorException or - exactly
+   when value or bound does not print - a ValueError *)
+Theorem C14_min_exact_or_message_leak : forall O b incl v, is_number v = true -> is_number b = true ->
+  validate O (WMin b incl) v = (if sat_min b incl v then Ok v else Raise VEC) \/
+  (sat_min b incl v = false /\ fmt_ok v && fmt_ok b = false /\ validate O (WMin b incl) v = Raise ValueErrorC).
+Proof. intros O. exact (min_exact_full gen_shapes O C14_shapes_good). Qed.
+Print Assumptions C14_min_exact_or_message_leak.
 
 (* the boundary spelled out on ints: equal to the bound is accepted exactly with include_boundary *)
-Theorem C14_minmax_int_boundary : forall O b z incl,
+Theorem C14_minmax_int_boundary_partial : forall O b z incl, int_fmt_ok b = true -> int_fmt_ok z = true ->
   (validate O (WMin (VInt b) incl) (VInt z) = if (if incl then b <=? z else b <? z) then Ok (VInt z) else Raise VEC) /\
   (validate O (WMax (VInt b) incl) (VInt z) = if (if incl then z <=? b else z <? b) then Ok (VInt z) else Raise VEC).
 Proof.
-  intros O b z incl. split.
-  - rewrite C14_min_exact by reflexivity. now rewrite sat_min_int.
-  - rewrite C14_max_exact by reflexivity. now rewrite sat_max_int.
+  intros O b z incl Fb Fz. split.
+  - rewrite C14_min_exact_partial by (try reflexivity; assumption). now rewrite sat_min_int.
+  - rewrite C14_max_exact_partial by (try reflexivity; assumption). now rewrite sat_max_int.
 Qed.
-Print Assumptions C14_minmax_int_boundary.
+Print Assumptions C14_minmax_int_boundary_partial.
 
 (* former finding C14-K8a (fixed by bfea338): NaN - as value or as bound - is rejected by every Min and every Max *)
-Theorem C14_minmax_nan_rejected : forall O b incl v,
-  is_number v = true -> is_number b = true -> is_nan v || is_nan b = true ->
+Theorem C14_minmax_nan_rejected_partial : forall O b incl v,
+  is_number v = true -> is_number b = true -> fmt_ok v = true -> fmt_ok b = true -> is_nan v || is_nan b = true ->
   validate O (WMin b incl) v = Raise VEC /\ validate O (WMax b incl) v = Raise VEC.
 Proof. intros O. exact (minmax_nan_rejected gen_shapes O C14_shapes_good). Qed.
-Print Assumptions C14_minmax_nan_rejected.
+Print Assumptions C14_minmax_nan_rejected_partial.
 
-(* ---------- MinLength / MaxLength: every limit, every value, in particular length = limit ------------------ *)
-Theorem C14_minlen_exact : forall O n v,
+(* ---------- MinLength / MaxLength: every limit, every printable value (K9: the message prints the value), in
+   particular length = limit *)
+Theorem C14_minlen_exact_partial : forall O n v, fmt_ok v = true ->
   validate O (WMinLen n) v = match py_len v with Some l => if n <=? l then Ok v else Raise VEC | None => Raise VEC end.
 Proof. intros O. exact (minlen_exact gen_shapes O C14_shapes_good). Qed.
-Print Assumptions C14_minlen_exact.
+Print Assumptions C14_minlen_exact_partial.
 
-Theorem C14_maxlen_exact : forall O n v,
+Theorem C14_maxlen_exact_partial : forall O n v, fmt_ok v = true ->
   validate O (WMaxLen n) v = match py_len v with Some l => if l <=? n then Ok v else Raise VEC | None => Raise VEC end.
 Proof. intros O. exact (maxlen_exact gen_shapes O C14_shapes_good). Qed.
-Print Assumptions C14_maxlen_exact.
+Print Assumptions C14_maxlen_exact_partial.
 
 (* ---------- NotEmpty ------------------------------------------------------------------------------------------- *)
 Theorem C14_notempty_str : forall O strip s,
@@ -103,12 +145,12 @@ Proof.
 Qed.
 Print Assumptions C14_notempty_str.
 
-Theorem C14_notempty_other : forall O strip v, is_str v = false ->
+Theorem C14_notempty_other_partial : forall O strip v, is_str v = false -> fmt_ok v = true ->
   validate O (WNotEmpty strip) v =
   if is_sequence v then match py_len v with Some l => if l =? 0 then Raise VEC else Ok v | None => Raise VEC end
   else Raise VEC.
 Proof. intros O. exact (notempty_other gen_shapes O C14_shapes_good). Qed.
-Print Assumptions C14_notempty_other.
+Print Assumptions C14_notempty_other_partial.
 
 (* ---------- Email: REGEX_EMAIL decides local@domain.tld, for all strings -------------------------------------- *)
 Theorem C14_email_regex_iff_pred : forall O s,
@@ -168,22 +210,23 @@ Theorem C14_isenum_intenum_float : forall O, oracles_ok O -> forall ms convert u
   end.
 Proof.
   intros O HO ms convert upper f.
-  rewrite (C14_validate_meets_spec O HO (WIsEnum ms true convert upper) (VFloat f)).
+  rewrite (C14_validate_meets_spec_partial O HO (WIsEnum ms true convert upper) (VFloat f) eq_refl eq_refl).
   - cbn [spec int_denoted]. destruct (float_is_integral f); [|reflexivity].
     destruct (int_of_float f) as [z|e]; [|reflexivity]. now destruct (member_of ms (VInt z)).
   - cbn [spec]. now destruct (match int_denoted O ms (VFloat f) with Some z => member_of ms (VInt z) | None => None end).
 Qed.
 Print Assumptions C14_isenum_intenum_float.
 
-(* former finding C14-K8d (fixed by c700fb9): an int beyond the float range is rejected with ValidatorException *)
-Theorem C14_unix_int_overflow_rejected : forall O, oracles_ok O -> forall z e,
+(* former finding C14-K8d (fixed by c700fb9): an int beyond the float range is rejected with ValidatorException -
+   as long as it prints (2**1024 does; 10**5000 does not: C14_reject_message_refuted) *)
+Theorem C14_unix_int_overflow_rejected_partial : forall O, oracles_ok O -> forall z e, int_fmt_ok z = true ->
   float_of_Z z = Raise e -> validate O WUnix (VInt z) = Raise VEC.
 Proof.
-  intros O HO z e F. rewrite (C14_validate_meets_spec O HO WUnix (VInt z)).
+  intros O HO z e Fz F. rewrite (C14_validate_meets_spec_partial O HO WUnix (VInt z) eq_refl Fz).
   - cbn [spec seconds_of]. now rewrite F.
   - cbn [spec seconds_of]. rewrite F. discriminate.
 Qed.
-Print Assumptions C14_unix_int_overflow_rejected.
+Print Assumptions C14_unix_int_overflow_rejected_partial.
 
 (* ---------- convert_value ------------------------------------------------------------------------------------------ *)
 Theorem C14_convert_meets_spec : forall O, oracles_ok O -> forall v t, convert O v t = spec_convert O v t.
@@ -240,7 +283,7 @@ Definition O_fail : oracles := {|
   o_fromiso := fun _ => Raise TypeErrorC; o_epoch_plus := fun _ => Raise OverflowErrorC |}.
 
 Example C14_oracles_ok_inhabited : oracles_ok O_fail.
-Proof. constructor; intros; reflexivity. Qed.
+Proof. constructor; intros; try reflexivity; discriminate. Qed.
 
 (* a nested case inside the input domain, accepted and converted *)
 Example C14_example_accept :
@@ -278,14 +321,14 @@ Example C14_former_witnesses : forall O, oracles_ok O ->
   validate O (WIsEnum [VInt 1; VInt 2] true true true) (VFloat (S754_finite false 4503599627370496 (-51))) = Ok (VOpq K_ENUM [1]).
 Proof.
   intros O HO. split; [|split; [|split; [|split]]].
-  - apply (C14_minmax_nan_rejected O (VInt 3) true (VFloat S754_nan)); reflexivity.
+  - apply (C14_minmax_nan_rejected_partial O (VInt 3) true (VFloat S754_nan)); reflexivity.
   - now rewrite (C14_isenum_intenum_float O HO).
   - now rewrite (C14_isenum_intenum_float O HO).
-  - apply (C14_unix_int_overflow_rejected O HO _ OverflowErrorC). vm_compute. reflexivity.
+  - apply (C14_unix_int_overflow_rejected_partial O HO _ OverflowErrorC); vm_compute; reflexivity.
   - now rewrite (C14_isenum_intenum_float O HO).
 Qed.
 
 (* the digit limit is reachable: str(10^4300) fails (4301 digits), small ints print *)
 Example C14_digit_limit_reachable : forall O,
   py_str O (VInt (10 ^ 4300)) = Raise ValueErrorC /\ py_str O (VInt (-12)) = Ok [45; 49; 50].
-Proof. intro O. split; vm_compute; reflexivity. Qed.
+Proof. exact digit_limit_witness. Qed.
